@@ -8,7 +8,7 @@ import Driver.Util
       raw   = the start argument split at `/`: `/`-separated components, an empty component is `e`
       layout = `;`-separated directories `path:entries`, entries `,`-separated names
     answer: `module|package <file> <sys.path entry> <project dir>`, `notfound` or `importerror`,
-      followed by ` h<0|1>`: 1 iff every directory from the start upwards (root excluded) is listed -/
+      followed by ` h<0|1>`: 1 iff every directory from the start up to the root is listed (hypothesis of `find_complete`) -/
 open Inv.Loader Drv
 
 def splitNE (s : String) (sep : String) : List String := if s.isEmpty then [] else s.splitOn sep
@@ -35,7 +35,7 @@ def step (line : String) : String :=
     let fs := fsOf (decLayout (if lay == "-" then "" else lay))
     let nm := decChars name
     let p := absPath (decPath cwd) (ab == "1") (decRaw raw)
-    let hyp := if (prefixesNE p).all (fun d => (fs.ls d).isSome) then " h1" else " h0"
+    let hyp := if ([] :: prefixesNE p).all (fun d => (fs.ls d).isSome) then " h1" else " h0"
     (match loadFrom fs (decPath cwd) (ab == "1") (decRaw raw) nm with
      | .ok l =>
        (match find fs (decPath cwd) (ab == "1") (decRaw raw) nm with
